@@ -15,7 +15,7 @@ TOKEN = re.compile(r"""
     (?P<lstr>\[(?P<seq>=*)\[) |
     (?P<name>[A-Za-z_][A-Za-z0-9_]*) |
     (?P<num>0[xX][0-9a-fA-F_.pP+-]+|\d[\d_]*\.?[\d_]*(?:[eE][+-]?\d+)?|\.\d[\d_]*(?:[eE][+-]?\d+)?) |
-    (?P<str>"(?:\\.|\\\n|[^"\\\n])*"|'(?:\\.|\\\n|[^'\\\n])*'|`(?:\\.|[^`\\])*`) |
+    (?P<str>"(?:\\\r\n|\\.|[^"\\\n\r])*"|'(?:\\\r\n|\\.|[^'\\\n\r])*'|`(?:\\.|[^`\\])*`) |
     (?P<op>\.\.\.|\.\.=?|::|->|==|~=|<=|>=|<<|>>|//=?|\+=|-=|\*=|/=|%=|\^=|[-+*/%^\#&~|<>=(){}\[\];:,.?])
 """, re.X | re.S)
 
